@@ -44,9 +44,9 @@ def abstract_fields(fields, npos=None, version=None):
     """fields: list of strings (tab-split written line)."""
     rt = fields[0]
     if rt.startswith("#"):
-        return dict(rt="#", name="*", refs=[], f=["\t".join(fields)[1:]], num=[], tags=[], tagn=[], ovs=[])
+        return dict(rt="#", name="*", refs=[], f=["\t".join(fields)[1:]], num=[], tags=[], tagn=[], tagt=[], ovs=[])
     if rt == "?record_type?":
-        return dict(rt="?", name=fields[1], refs=[], f=[], num=[], tags=[], tagn=[], ovs=[])
+        return dict(rt="?", name=fields[1], refs=[], f=[], num=[], tags=[], tagn=[], tagt=[], ovs=[])
     if npos is None:
         if rt == "S":
             npos = 3 if version == "gfa2" else 2
@@ -128,6 +128,7 @@ def cigar_ops(s):
 
 def _fin(rec):
     rec["tagn"] = [t[:2] for t in rec["tags"]]
+    rec["tagt"] = [t[3:4] for t in rec["tags"]]
     return rec
 
 
